@@ -66,7 +66,7 @@ void one_case(Ctx &c) {
   // abstract server state from which recovery is checked (public struct read for classification only)
   CO_SDO *sv = &s.node->Sdo[target];
   bool nonidle = sv->Blk.State != BLK_IDLE || sv->Obj != 0 || sv->Buf.Num != 0;
-  char key[96]; snprintf(key, sizeof key, "recover-from:blk%d,obj%d,tbit%d,buf%s,dir%d", (int)sv->Blk.State, sv->Obj != 0, sv->Seg.TBit & 1, sv->Buf.Num == 0 ? "0" : sv->Buf.Num < 8 ? "<8" : sv->Buf.Num < 889 ? "<889" : "full", (int)sv->Seg.Dir);
+  char key[96]; snprintf(key, sizeof key, "recover-from:blk%d,obj%d,tbit%d,buf%s", (int)sv->Blk.State, sv->Obj != 0, sv->Seg.TBit & 1, sv->Buf.Num == 0 ? "0" : sv->Buf.Num < 8 ? "<8" : sv->Buf.Num < 889 ? "<889" : "full");
   c.cls(key);
   // ---- recovery
   if (by_reset) {
